@@ -17,6 +17,10 @@ CONFIG = """
 \texclude = refs/heads/x
 [refgroup "mine.sub"]
 \tinclude = refs/heads/main
+[refgroup "mine.out"]
+\tincludeRegexp = .*/x
+[refgroup "tags.xs"]
+\tincludeRegexp = refs/.*/x
 """
 
 
@@ -103,6 +107,10 @@ def pairs_for(rng, refs):
         (["--json", "--include-regexp=refs/heads/x|refs/tags/chain"], ["--json", "--include=/refs/heads/x|refs/tags/chain/"]),
         (["--json", "--refgroup", "mine"], ["--json", "--include", "@mine"]),
         (["--json", "--refgroup=mine.sub"], ["--json", "--include=@mine.sub"]),
+        (["--json", "--refgroup", "mine.out"], ["--json", "--include", "@mine.out"]),
+        (["--json", "--json-version=2", "--refgroup", "tags.xs"], ["--json", "--json-version=2", "--include", "@tags.xs"]),
+        (["-v", "--refgroup=tags.xs"], ["-v", "--include=@tags.xs"]),
+        (["--json", "--refgroup=mine.out", "--exclude", "refs/stash"], ["--json", "--include=@mine.out", "--exclude", "refs/stash"]),
         (["--json", "--refgroup", "tags", "--exclude", "refs/tags/x"], ["--json", "--include", "@tags", "--exclude", "refs/tags/x"]),
         (["--json", "--branches"], ["--json", "--include", "refs/heads"]),
         (["--json", "--no-tags"], ["--json", "--exclude", "refs/tags"]),
